@@ -203,10 +203,11 @@ def run(rep, tier):
     pf = [e for e in events if e["run"] not in runs_with_panic]
     trp = os.path.join(wd, "trace_ok.ndjson")
     lib.write_ndjson(trp, pf)
-    ok, vr = lib.validate_trace("pipeline", "Trace_Pipeline", "trace.cfg", trp)
-    rep.add_tlc("Trace_Pipeline", vr)
+    ok, vrs = lib.validate_trace_by_run("pipeline", "Trace_Pipeline", "trace.cfg", pf, wd, "okc")
+    for i, vr in enumerate(vrs):
+        rep.add_tlc("Trace_Pipeline/%d" % i, vr)
     if not ok:
-        raise lib.ToolError("panic-free projection of the trace rejected: %s" % vr.printed)
+        raise lib.ToolError("panic-free projection of the trace rejected: %s" % [v.printed for v in vrs if v.rc != 0][:1])
     bad = os.path.join(wd, "trace_bad.ndjson")
     lib.write_ndjson(bad, pf[:2] + [{"ev": "Lower", "run": "selftest", "ok": True, "panic": False},
                                     {"ev": "Generate", "run": "selftest", "outcome": "panic"}])
